@@ -7,6 +7,7 @@ decided by differential runs (fav/props/c05.py), not here.
 -/
 import FAVerif.Lemmas.Printer
 import FAVerif.Generated.C05Tables
+import FAVerif.Generated.C05Rows
 
 namespace FAVerif.Props.C05
 open FAVerif.Printer FAVerif.RefAlloc FAVerif.Gen.C05
